@@ -527,8 +527,11 @@ def coq_verdicts(name, cases, obs):
     """returns list of bad indices (model != observed) or None if Coq evaluation failed"""
     SH = 200
     def shard(sh):
-        lines = ["From Coq Require Import List ZArith Bool.", "From FV Require Import Models.Returns.",
-                 "Import ListNotations."]
+        lines = ["From Coq Require Import List ZArith Bool.", "From FV Require Import Models.Returns Models.ReturnsSpec.",
+                 "Import ListNotations.",
+                 "(* spec-side oracle: the compiler reported nothing although the specification (decided by spec_ok, proved exact) fails *)",
+                 "Definition spec_bad (cs : list case) : list Z := map c_id (filter (fun c => negb (o_missing c) && Nat.eqb (o_unreach c) 0 "
+                 "&& Nat.eqb (o_infloop c) 0 && Nat.eqb (o_outside c) 0 && Nat.eqb (o_bare c) 0 && negb (spec_ok (c_body c))) cs)."]
         names = {}
         items = []
         for i in range(sh, min(sh + SH, len(cases))):
@@ -543,15 +546,18 @@ def coq_verdicts(name, cases, obs):
         lines.append("Definition cases : list case := [")
         lines.append(";\n".join(items)); lines.append("].")
         lines.append("Eval vm_compute in (bad_ids cases).")
+        lines.append("Eval vm_compute in (spec_bad cases).")
         ok, out = common.coq_eval("%s_%d" % (name, sh), "\n".join(lines) + "\n")
-        ids = common.parse_bad_ids(out) if ok else None
-        if ids is None:
+        try: os.remove(os.path.join(common.GEN, "cases_%s_%d.v" % (name, sh)))      # per-process name: do not accumulate
+        except OSError: pass
+        parts = re.findall(r"=\s*(\[[^\]]*\]|nil)\s*(?:%\w+)?\s*:\s*list\s+Z", out, re.S) if ok else []
+        if len(parts) != 2:
             raise RuntimeError("Coq evaluation of the C05 cases failed:\n" + out[-2000:])
-        return ids
-    bad = []
-    for ids in common.pmap(shard, range(0, len(cases), SH), workers=6):
-        bad += ids
-    return sorted(bad)
+        return [[int(x) for x in re.findall(r"-?\d+", p_.replace("%Z", ""))] for p_ in parts]
+    bad = []; sbad = []
+    for ids, sids in common.pmap(shard, range(0, len(cases), SH), workers=6):
+        bad += ids; sbad += sids
+    return sorted(set(bad) | set(sbad))
 
 def exec_stage(run, work, items, tag):
     """items: list of (body(numbered), pos, consts, args). Compiles ~12 functions per program, runs, checks.
@@ -714,7 +720,7 @@ def main(run):
                    {"program": srcs[i], "observed": o, "correspondence": "diagnostics of cfg.go vs Models/Returns.v"}, no_input=True)
 
     # ---- correspondence model vs implementation
-    bad = coq_verdicts("c05", cases, obs)
+    bad = coq_verdicts("c05_p%d" % os.getpid(), cases, obs)
     lap("coq_eval")
     run.extra["correspondence_cases"] = len(cases)
     run.extra["correspondence_disagreements"] = len(bad)
